@@ -101,7 +101,13 @@ func c10Child(c *mon.Child) {
 						}
 						rr := realParse(func() (interface{}, error) { return gp.byK[k].ParseString("", text) })
 						if rr.Panicked {
-							c.Feature("parse_panicked_(see_C06)")
+							if env.Tr.NamedElidedMatch > 0 {
+								// the documented meaning matches an explicitly named elided token here and arrives at a result
+								c.Violation(c07PanicClass(rr.Stack, rr.PanicVal), key, fmt.Sprintf("parser panicked (%s) where the documented meaning matches an explicitly named elided token and accepts=%v | lookahead=%s | grammar: %s | input: %q", trunc(rr.PanicVal, 200), ref.OK, kName(k), gdesc, text),
+									map[string]interface{}{"grammar": g, "input": text})
+							} else {
+								c.Feature("parse_panicked_(see_C06)")
+							}
 							continue
 						}
 						what := ""
@@ -231,7 +237,7 @@ func c10Child(c *mon.Child) {
 func init() {
 	Register(&mon.Spec{
 		ID:          "C10",
-		Rule:        "case = (generated grammar, token string) rendered under 8 (thorough 14) spacings: none/one/many spaces, newlines, CR/LF, comments before, between and after tokens. For grammars that never name an elided type (Token-typed captures compared by type and text; elided tokens inside a []lexer.Token run, which lie between matched tokens, are ignored; a leading one is not): accept/reject and all captured fields must be identical for every spacing under each lookahead in {0,1,2,5,MaxLookahead,unlimited} (the harness first checks with Parser.Lex that the non-elided (type,text) sequences really are equal). For grammars that name WS/Comment explicitly: result compared with the reference semantics' leaf rule (first such token before the next ordinary token). Non-trivial: an elided run lies next to a position where the reference trace abandoned an attempt (first half) / an explicitly named elided token was matched (second half). Distinct by (grammar IR, token string[, text, k]).",
+		Rule:        "case = (generated grammar, token string) rendered under 8 (thorough 14) spacings: none/one/many spaces, newlines, CR/LF, comments before, between and after tokens. For grammars that never name an elided type (Token-typed captures compared by type and text; elided tokens inside a []lexer.Token run, which lie between matched tokens, are ignored; a leading one is not): accept/reject and all captured fields must be identical for every spacing under each lookahead in {0,1,2,5,MaxLookahead,unlimited} (the harness first checks with Parser.Lex that the non-elided (type,text) sequences really are equal). For grammars that name WS/Comment explicitly: result compared with the reference semantics' leaf rule (first such token before the next ordinary token). Non-trivial: an elided run lies next to a position where the reference trace abandoned an attempt (first half) / an explicitly named elided token was matched (second half). Distinct by (grammar IR, token string[, text, k]). In the second half a panic where the reference matches an explicitly named elided token is a violation; generated alternatives may consist of nothing but a named elided token.",
 		Assumptions: []string{"lexer.Token-typed captures are compared by (type, text) only: positions inherently depend on spacing"},
 		Batches:     func(t string) int { return pick(t, 4, 16) },
 		Floor:       func(t string) int { return pick(t, 500, 10000) },
